@@ -1,6 +1,7 @@
 """C16 - a problem's variables are exactly those it mentions, in natural order (DESIGN §5 C16)."""
 from __future__ import annotations
 
+import numpy as np
 from hypothesis import strategies as st
 
 from harness import gen
@@ -71,6 +72,13 @@ def cases(draw, tier="quick"):
                 V = g.V(1, classes=("var", "expr"))
                 cons.append({"kind": "vector", "lhs": V, "sense": draw(st.sampled_from(["<=", ">=", "=="])),
                              "rhs": draw(st.sampled_from([0, 1, 2.5]))})
+                if draw(st.integers(0, 2)) == 0:
+                    # an array / list right-hand side, one number per element; entries on the slack side may be infinite
+                    # ("no limit for this element") - the element is still mentioned by the problem
+                    sn_ = cons[-1]["sense"]
+                    slack = float("inf") if sn_ == "<=" else float("-inf") if sn_ == ">=" else 1.5
+                    data = [draw(st.sampled_from([0.0, 1.0, 2.5, slack, slack])) for _ in range(vsize(V, env))]
+                    cons[-1]["rhs_arr"] = {"kind": draw(st.sampled_from(["arr", "list"])), "data": data}
             else:
                 cons.append({"kind": "scalar", "lhs": g.S(draw(st.integers(0, 2))),
                              "sense": draw(st.sampled_from(["<=", ">=", "=="])), "rhs": g.S(draw(st.integers(0, 1)))})
@@ -113,7 +121,8 @@ def strategy(tier):
 def sample_repr(case):
     return {"stratum": case["stratum"], "objective": show(case["objective"]),
             "views": {k: show(v) for k, v in case["env"]["views"].items()},
-            "constraints": [f"{show(c['lhs'])} {c['sense']} {show(c['rhs'])}" for c in case["constraints"]]}
+            "constraints": [f"{show(c['lhs'])} {c['sense']} " + (f"{c['rhs_arr']['kind']}({c['rhs_arr']['data']})" if c.get("rhs_arr") else f"{show(c['rhs'])}")
+                            for c in case["constraints"]]}
 
 
 def _declared(env):
@@ -153,6 +162,8 @@ def _build_problem(case, order):
         c = case["constraints"][i]
         lhs = b.ev(c["lhs"])
         rhs = b.ev(c["rhs"]) if isinstance(c["rhs"], list) else c["rhs"]
+        if c.get("rhs_arr"):
+            rhs = np.array(c["rhs_arr"]["data"], dtype=float) if c["rhs_arr"]["kind"] == "arr" else list(c["rhs_arr"]["data"])
         if c["kind"] == "scalar" and not is_expr(lhs):
             if is_expr(rhs):
                 lhs, rhs = rhs, lhs
